@@ -167,9 +167,12 @@ func execCase(c Case) (res runResult) {
 	}
 }
 
-// execCaseConfirm is the watchdog of the confirmation pass (one case, alone in a fresh child): the
-// case counts as hung only when the process has *consumed* the budget in CPU time, or has not
-// answered within five times the budget of wall time; a starved machine does not make a hang.
+// execCaseConfirm is the watchdog of the confirmation pass (one case, alone in a fresh child). Its
+// verdict must not depend on the load of the machine: the case counts as hung only when the
+// process has *consumed* the budget in CPU time (and the wall budget is over), or when it has made
+// no progress at all (< 5 % of the budget in CPU) within ten times the budget of wall time
+// (deadlock, sleep). Ten times the wall budget with some but not enough CPU is a starved machine:
+// verdict "inconclusive", which is counted and never reported as a violation.
 func execCaseConfirm(c Case) (res runResult) {
 	done := make(chan runResult, 1)
 	cpu0 := processCPU()
@@ -190,8 +193,14 @@ func execCaseConfirm(c Case) (res runResult) {
 			}
 			return r
 		case <-tick.C:
-			if wall := time.Since(t0); wall > b && (processCPU()-cpu0 >= b || wall > 5*b) {
+			wall, cpu := time.Since(t0), processCPU()-cpu0
+			switch {
+			case wall > b && cpu >= b:
 				return runResult{Outcome: Outcome{Verdict: "hang", Elapsed: wall}}
+			case wall > 10*b && cpu < b/20:
+				return runResult{Outcome: Outcome{Verdict: "hang", Elapsed: wall, Err: "no progress"}}
+			case wall > 10*b:
+				return runResult{Outcome: Outcome{Verdict: "inconclusive", Elapsed: wall}}
 			}
 		}
 	}
